@@ -10,7 +10,7 @@ import os
 import common
 
 TRUSTED = ["Python int semantics of >> (arithmetic shift) = Int.shiftRight (validated by the correspondence)"]
-TRANSLATION_TIE = True        # vcheck: harness/gentie.py (bins.py translated to Lean, proved equal to the model)
+TRANSLATION_TIE = "bins"        # vcheck: harness/gentie.py (bins.py translated to Lean, proved equal to the model)
 LEANCHECKER_MODULES = ["GffProofs.Props.C12"]
 
 M = 2 ** 29
